@@ -368,6 +368,40 @@ pub fn c02(args: &Args) -> Report {
         }
         max_dev = max_dev.max(2);
     }
+    // negotiated versions: the decoder must not depend on the minor a client negotiated, for every minor whose
+    // request layouts are the current ones (7.12 on: fuse_mknod_in got its umask field in 7.12, fuse_write_in
+    // its lock owner in 7.9). INIT with that minor on a fresh server, then every opcode's base request and each
+    // single deviation of its first dimension.
+    for &minor in &[12u32, 13, 14, 17, 19, 22, 23, 24, 27, 28, 29, 31, 32, 33, 34, 36, 38, 40, u32::MAX] {
+        rig.fresh_server();
+        let init = Req::new(k::FUSE_INIT, 1, init_body(7, minor, 0x7fff_ffff, Some(k::FUSE_INIT_IN.size - 16))).bytes();
+        let _ = rig.run(&init, &Tr::Sep(8192 + 16), Answer::default());
+        for &op in ops::ALL_OPS {
+            if op == k::FUSE_INIT || op == k::FUSE_DESTROY {
+                continue;
+            }
+            let base = ops::base_case(op);
+            let mut cases = vec![(base.clone(), Vec::new())];
+            if let Some(d) = dims_of(op).first() {
+                for v in dim_alts(d, false).into_iter().take(3) {
+                    let mut c = base.clone();
+                    apply(&mut c, d, v);
+                    cases.push((c, vec![(format!("{:?}", d), v)]));
+                }
+            }
+            for (c, devs) in cases {
+                for tr in [Tr::Chan, Tr::Virt { cuts: vec![40], wr: vec![16, 8192], gap: 8, wr_in_b: true, cache: true }] {
+                    if rep.mine(idx) {
+                        let mut d2 = devs.clone();
+                        d2.push(("negotiated-minor".to_string(), minor as u64));
+                        c02_check(&mut rig, &mut rep, &c, &tr, &d2);
+                    }
+                    idx += 1;
+                }
+            }
+        }
+    }
+    rig.fresh_server();
     rep.set("total_cases_all_shards", json!(idx));
     rep.set("deviation_bound_completed", json!(max_dev));
     rep.set("opcodes", json!(ops::ALL_OPS.len() - 1));
@@ -443,6 +477,8 @@ pub enum Script {
     Kind(std::io::ErrorKind),
     /// success with a negative entry (inode 0, timeouts set): a cacheable "does not exist"
     Negative,
+    /// directory walks only: the filesystem fails with EIO after this many entries were accepted
+    DirFault(u8),
 }
 
 impl Script {
@@ -461,6 +497,8 @@ impl Script {
             Script::Enoent => "err-enoent",
             Script::KindOther => "err-kind-other",
             Script::Negative => "ok-negative-entry",
+            Script::DirFault(1) => "dir-fault-after-1",
+            Script::DirFault(_) => "dir-fault-after-3",
             Script::Kind(std::io::ErrorKind::NotFound) => "err-kind-notfound",
             Script::Kind(std::io::ErrorKind::PermissionDenied) => "err-kind-permissiondenied",
             Script::Kind(std::io::ErrorKind::AlreadyExists) => "err-kind-alreadyexists",
@@ -469,7 +507,7 @@ impl Script {
         }
     }
     pub fn from_name(s: &str) -> Script {
-        *Script::ALL.iter().chain(Script::KINDS.iter()).chain([Script::Negative].iter()).find(|x| x.name() == s).unwrap()
+        *Script::ALL.iter().chain(Script::KINDS.iter()).chain([Script::Negative, Script::DirFault(1), Script::DirFault(3)].iter()).find(|x| x.name() == s).unwrap()
     }
     pub fn answer(&self) -> Answer {
         use crate::scriptfs::{DirAns, Fail};
@@ -496,6 +534,11 @@ impl Script {
             Script::Enoent => a.fail = Some(Fail::Errno(libc::ENOENT)),
             Script::KindOther => a.fail = Some(Fail::Kind(std::io::ErrorKind::Other)),
             Script::Kind(kd) => a.fail = Some(Fail::Kind(*kd)),
+            Script::DirFault(n) => {
+                a.dirents = dirents(6);
+                a.dir_propagate_err = true;
+                a.dir_fail_after = Some((*n as usize, libc::EIO));
+            }
             Script::Negative => {
                 a.data = b"small-data".to_vec();
                 a.dirents = dirents(3);
@@ -956,6 +999,16 @@ pub fn c01(args: &Args) -> Report {
                         c01_run(&mut rig, &mut rep, &cs);
                     }
                     idx += 1;
+                }
+                // a fault in the middle of a directory walk: entries are already staged when the error reply is built
+                if matches!(op, k::FUSE_READDIR | k::FUSE_READDIRPLUS) && sh.wellformed {
+                    for sc in [Script::DirFault(1), Script::DirFault(3)] {
+                        if rep.mine(idx) {
+                            let cs = C01Case { req: &reqb, tr, script: sc, wellformed: sh.wellformed, label: format!("{}:{}", ops::op_name(op), sh.label) };
+                            c01_run(&mut rig, &mut rep, &cs);
+                        }
+                        idx += 1;
+                    }
                 }
             }
         }
